@@ -15,7 +15,8 @@ LEVEL = "exploration"
 RULE = (
     "G-vcf documents (1-3 samples, 1-3 contigs, SNV/indel/MNP/multi-ALT/symbolic/no-ALT records, duplicate positions, "
     "INFO/FORMAT fields of several Number/Type, per-call ploidy 1-4, '.', './.', '0/.', records without GT, PS- or HP-phased "
-    "blocks incl. interleaved ones, PQ values, stray '|' genotypes, phase tags defined but unused) are unphased by "
+    "blocks incl. interleaved ones, PQ values, stray '|' genotypes, phase tags defined but unused, ##contig lines missing or "
+    "incomplete) are unphased by "
     "whatshap.cli.unphase.run_unphase (in-process) and, for a sample of them, by the real CLI writing to stdout. Monitors: "
     "success; textual scan (no '|' genotype, no HP/PS/PQ FORMAT key); htslib record differ (everything but GT/HP/PS/PQ equal, "
     "GT allele multiset equal); idempotence unphase(unphase(x)) == unphase(x) record-for-record. History stratum: "
@@ -194,6 +195,12 @@ def gen_case(rng):
         defined_phase_tags=rng.choice([None, ["PS"], ["HP"], ["PS", "HP", "PQ"]]),
         n_records=rng.randint(1, 25),
     )
+    r = rng.random()
+    if r < 0.15:
+        # ##contig lines are optional in VCF: none declared, or only the first one
+        first = [m for m in doc.meta if m.startswith("##contig=")][:1] if r < 0.05 else []
+        doc.meta = [m for m in doc.meta if not m.startswith("##contig=") or m in first]
+        doc.undeclared_contigs = True
     return doc
 
 
